@@ -185,7 +185,11 @@ func VerifC16_SystemEntities() {
 	if outerSys {
 		outer = outer.GetSystemContext()
 	}
-	err := env.db.Update(outer, func(ctx MutateContext) error {
+	run := env.db.Update
+	if verifrt.Bool("batch") {
+		run = env.db.Batch
+	}
+	err := run(outer, func(ctx MutateContext) error {
 		for _, op := range ops {
 			c := ctx
 			if op.sysCtx && !outerSys {
